@@ -84,6 +84,8 @@ def gen_config(rng, hostpool):
     if cfg['storage'] in ('cookie', 'session') and rng.random() < 0.25:
         # the policy constructed with its own cookie name / session key (first constructor argument, positional or keyword)
         cfg['policy_args'] = {'name': rng.choice(['alt_tok', 'X-T', '_csrf2_']), 'positional': rng.random() < 0.5}
+    if rng.random() < 0.15:
+        cfg['settings_late'] = True              # the setting is added (add_settings) after the views were committed
     if rng.random() < 0.2:
         cfg['route'] = 'scan'                    # registered by @view_config(..) + config.scan(module), not by add_view
     if explicit is None and rng.random() < 0.4:
@@ -310,6 +312,19 @@ def gen_case(rng):
     reqs = []
     for _ in range(n):
         reqs.append(gen_request(rng, cfg, hostpool, reqs))
+    if rng.random() < 0.25:
+        # registry.settings of the running application changes between requests: origins revoked / added / re-spelled
+        for r in reqs[rng.randrange(len(reqs)):]:
+            k = rng.random()
+            if k < 0.35:
+                v = None if rng.random() < 0.5 else []
+            elif k < 0.8:
+                v = gen_patterns(rng, hostpool) + ([host_of(r)] if rng.random() < 0.3 else [])
+                if rng.random() < 0.4:
+                    v = ' '.join(v)
+            else:
+                continue
+            r['settings_now'] = {'v': v}
     case = {'config': cfg, 'caller': caller, 'raises': rng.random() < 0.5, 'reqs': reqs}
     if caller is not None and rng.random() < 0.3:
         case['caller_kind'] = 'tuple'
@@ -383,6 +398,18 @@ def canonical_cases():
             out.append({'config': dict(cfg, view_class={'how': how, 'require_csrf': cv}), 'caller': None, 'raises': False,
                         'reqs': [_req('a.example.com', origin='https://a.example.com'),
                                  _req('a.example.com', origin='https://evil.com', header_tok='a1b2c3d4')]})
+    # round 7: a trusted origin revoked / added in the running application; the setting added after the views were committed
+    part = _req('a.example.com', origin='https://partner.example', header_tok='a1b2c3d4')
+    for storage in ('session', 'cookie'):
+        c7 = dict(base_cfg, storage=storage, settings='partner.example')
+        out.append({'config': c7, 'caller': None, 'raises': False,
+                    'reqs': [part, dict(part, settings_now={'v': None}), dict(part, settings_now={'v': ['other.example']}),
+                             dict(part, settings_now={'v': 'other.example partner.example'}), part]})
+        out.append({'config': dict(base_cfg, storage=storage, settings=None), 'caller': None, 'raises': False,
+                    'reqs': [part, dict(part, settings_now={'v': '.example'}), part]})
+        out.append({'config': dict(c7, settings_late=True), 'caller': None, 'raises': False, 'reqs': [part]})
+        out.append({'config': dict(c7, settings_late=True, explicit=None, defaults={'require_csrf': True}),
+                    'caller': None, 'raises': True, 'reqs': [part, dict(part, settings_now={'v': None})]})
     for vc in (None, {'how': 'decorator', 'require_csrf': False}):
         for ex in (True, False, None):
             c2 = dict(base_cfg, explicit=ex, route='scan', defaults={'require_csrf': True})
